@@ -303,6 +303,55 @@ fn missing_case(idx: u64, rec: &mut Rec) {
     }
 }
 
+/// With `allow_partial_redirect(true)` a 3xx head without its final empty line may be accepted; if it
+/// is, the redirect still goes to the LAST Location it carried.
+fn partial_locations_case(idx: u64, rec: &mut Rec) {
+    use ureq_proto::client::flow::RecvResponseResult;
+    let status = [301u16, 302, 307][(idx % 3) as usize];
+    let first: &[u8] = [&b"http://wrong.test/first"[..], b"/first", b"//wrong.test/x"][(idx / 3 % 3) as usize];
+    let last: &[u8] = [&b"http://b.test/z?k=v"[..], b"/last/one", b"?only=query"][(idx / 9 % 3) as usize];
+    let cut_back = [2usize, 1][(idx / 27 % 2) as usize];
+    let base = "http://a.test/dir/file?q=1";
+    let mut h = RespHead::new(false, status);
+    h.fields.push(Field::new("Location", first));
+    h.fields.push(Field::new("X-Between", b"1"));
+    h.fields.push(Field::new("Location", last));
+    let full = h.render();
+    let truncated = &full[..full.len() - cut_back];
+    let mut f = match fast_to_recv(&ReqCfg::new("GET", base)) {
+        Ok(f) => f,
+        Err(e) => return rec.fail("C14/setup", e),
+    };
+    f.allow_partial_redirect(true);
+    rec.call();
+    match f.try_response(truncated) {
+        Ok((_, Some(_))) => {}
+        _ => {
+            rec.cov("partial-two-locations/not-accepted");
+            return;
+        }
+    }
+    let mut r = match f.proceed() {
+        Some(RecvResponseResult::Redirect(r)) => r,
+        _ => return rec.fail("C14/no-redirect-state", "accepted truncated redirect did not reach the redirect state".into()),
+    };
+    rec.call();
+    let want = normalise(&UriRef { fragment: None, ..resolve(&split_uri(base), &split_uri(std::str::from_utf8(last).unwrap())) });
+    match r.as_new_flow(RedirectAuthHeaders::Never) {
+        Ok(Some(nf)) => {
+            rec.cov("partial-two-locations/followed");
+            let got = uri_norm(nf.uri());
+            if got != want {
+                rec.fail(
+                    "C14/first-location-used",
+                    format!("truncated {} with Location {:?} then {:?} (opt-in): new flow has {} but the last Location resolves to {}", status, esc(first), esc(last), got, want),
+                );
+            }
+        }
+        other => rec.fail("C14/resolvable-location-refused", format!("{:?}", other.map(|o| o.map(|f| f.uri().to_string())))),
+    }
+}
+
 impl Property for P {
     fn id(&self) -> &'static str {
         "C14"
@@ -321,6 +370,7 @@ impl Property for P {
             Workload::new("chains", tier.pick(20_000, 8_000_000), false, "random clean chains, URI compared at every hop"),
             Workload::new("wire", tier.pick(5_000, 2_000_000), false, "request line and Host of every intermediate hop"),
             Workload::new("hostile", (HOSTILE.len() * 3) as u64, true, "hostile Locations x 3 bases, weak oracle"),
+            Workload::new("partial-two-locations", 54, true, "opt-in truncated 3xx heads carrying two different Location fields"),
             Workload::new("missing", 108, true, "missing / non-textual Location, alone, as the last of several fields, and after interim responses that carry a Location"),
         ]
     }
@@ -330,6 +380,7 @@ impl Property for P {
             "chains" => chain_case(&mut rng, rec),
             "wire" => wire_case(&mut rng, rec),
             "hostile" => hostile_case(idx, rec),
+            "partial-two-locations" => partial_locations_case(idx, rec),
             _ => missing_case(idx, rec),
         }
     }
@@ -349,6 +400,7 @@ impl Property for P {
         v.push(("empty/base-file/hop2".into(), 2));
         v.push(("wire-checked".into(), 500));
         v.push(("missing-location".into(), 5));
+        v.push(("partial-two-locations/followed".into(), 20));
         v.push(("non-textual-last-location-after-textual".into(), 5));
         v.push(("hostile/*".into(), 50));
         v
